@@ -169,7 +169,16 @@ pub fn child_run(rest: &[String]) -> ! {
                 } else if chosen[0].1.inputs.len() == 1 {
                     "move".to_string()
                 } else {
-                    format!("compact in={} out={} gc={}", removed.join(";"), added.join(";"), (chosen[0].1.upper_level == lsmtk::NUM_LEVELS - 1) as u8)
+                    // a compaction into the last level runs the garbage collector; when it drops
+                    // nothing (the outputs hold exactly the inputs' batches) it is a plain merge
+                    // for the batch-granular model, with the same system-call sequence
+                    let batches = |names: &[String]| -> Vec<String> {
+                        let mut b: Vec<String> = names.iter().flat_map(|n| n.split('.').map(|x| x.to_string())).collect();
+                        b.sort();
+                        b
+                    };
+                    let drops = batches(&removed) != batches(&added);
+                    format!("compact in={} out={} gc={}", removed.join(";"), added.join(";"), (chosen[0].1.upper_level == lsmtk::NUM_LEVELS - 1 && drops) as u8)
                 }
             }
             Op::Reopen => format!("reopen out={}", added.join(";")),
@@ -274,6 +283,40 @@ fn gen_c02_history(rng: &mut Rng, len: usize, nkeys: usize, single_entry: bool, 
             Op::Verify
         };
         ops.push(op);
+    }
+    ops
+}
+
+/// overlapping single-entry files stacked in level 0 (no compaction between the flushes), then
+/// compaction steps: the oldest file moves down, the next one has to be merged with it
+fn directed_merge_history(variant: usize, rng: &mut Rng) -> Vec<Op> {
+    // every file spans [first key .. last key] of the alphabet part it uses, no key is written
+    // twice and nothing is deleted: the files overlap, stack up level by level (each sinks by
+    // trivial moves until it meets the one below) and the merge that finally comes drops nothing
+    let mut ops = vec![];
+    let mut counter = 0u64;
+    let files = 4 + variant;
+    let mut next_key = 1usize;
+    let last = ALPHABET.len() - 1;
+    for i in 0..files {
+        // file i: {low_i, high_i} with low descending from the middle and high ascending: nested ranges
+        let lo = files - i;
+        let hi = last - (files - i);
+        let _ = next_key;
+        next_key += 1;
+        ops.push(Op::Put(ALPHABET[lo].to_vec(), gen_val(rng, &mut counter)));
+        ops.push(Op::Put(ALPHABET[hi].to_vec(), gen_val(rng, &mut counter)));
+        ops.push(Op::Flush);
+        for _ in 0..18 {
+            ops.push(Op::Compact(1));
+        }
+    }
+    ops.push(Op::Put(ALPHABET[0].to_vec(), gen_val(rng, &mut counter)));
+    if variant != 1 {
+        ops.push(Op::Reopen);
+    }
+    for _ in 0..4 {
+        ops.push(Op::Compact(1));
     }
     ops
 }
@@ -461,13 +504,22 @@ pub fn run(args: &Args) {
     }
     let (nh, len, max_points) = if args.thorough { (40, 28, 100000) } else { (8, 16, 400) };
     let exe = std::env::current_exe().unwrap();
-    for h in 0..nh {
+    // after the seeded histories: directed ones that make the selector MERGE files into a level
+    // above the last (random short histories almost only see trivial moves, and a merge into the
+    // last level is a GC, which the batch-granular model does not cover), so that the system-call
+    // order of a merge compaction is compared with `StoreCrash.block (.compact ..)` on every run
+    let directed = 3u64;
+    for h in 0..nh + directed {
         let mut rng = Rng::for_case(args.seed, 102, h);
         let mut cfg = Cfg::gen(&mut rng);
         cfg.memtable_bytes = *rng.pick(&[200, 1 << 20]);
         let nkeys = if h % 2 == 0 { 4 } else { 7 };
         let single = h % 4 != 3;
-        let ops = gen_c02_history(&mut rng, len, nkeys, single, h % 3 == 2);
+        let mut ops = gen_c02_history(&mut rng, len, nkeys, single, h % 3 == 2);
+        if h >= nh {
+            cfg.memtable_bytes = 1 << 20;
+            ops = directed_merge_history((h - nh) as usize, &mut rng);
+        }
         let work = scratch_dir(&format!("c02w.{}", h));
         std::fs::create_dir_all(&work).unwrap();
         let root = format!("{}/store", work);
@@ -481,6 +533,11 @@ pub fn run(args: &Args) {
                 continue;
             }
         };
+        if h >= nh {
+            for l in traced.report.lines().filter(|l| l.starts_with("op ")) {
+                rec.aux(&format!("directed {} {}", h - nh, l));
+            }
+        }
         // ---- correspondence: canonical trace vs the model's op list
         if let Some((clients, _)) = model_clients(&traced.report) {
             let canon = canonical(&traced.ops);
